@@ -277,6 +277,26 @@ pub fn has_any_lp_weight(
     }
 }
 
+/// Gets the latest entry of an address in the address lp weight history recorded at or before the
+/// given epoch, if any. Entries recorded for later epochs are ignored.
+pub fn get_address_lp_weight_at_or_before(
+    storage: &dyn Storage,
+    address: &Addr,
+    lp_denom: &str,
+    epoch_id: &EpochId,
+) -> Result<Option<(EpochId, Uint128)>, ContractError> {
+    Ok(LP_WEIGHT_HISTORY
+        .prefix((address, lp_denom))
+        .range(
+            storage,
+            None,
+            Some(Bound::inclusive(*epoch_id)),
+            Order::Descending,
+        )
+        .next()
+        .transpose()?)
+}
+
 /// Gets the latest entry of an address in the address lp weight history.
 /// If the address has no open positions, returns 0 for the weight.
 pub fn get_latest_address_lp_weight(
